@@ -38,8 +38,9 @@ structure Sys (F : Type) where
   failBind : List Nat := []
   /-- keys of the shell-owned I/O map (`ConnIoMap`, keyed by conn id).  Only `apply_connection_changes`
   (`Ev.reload`) and start-up change the key set; the arms of the loop look a link's I/O half up by its conn
-  id and are modelled for links that have one (`Lemmas/ReloadShell.lean`: `IoOk` — the key set is exactly the
-  conn ids of the links — is preserved by every event). -/
+  id and are modelled for links that have one (`Props/SysReload.lean`: `IoOk` — the key set is exactly the
+  conn ids of the links — is preserved by every event, `IoOk_step`, and along every run whose reloads draw new
+  conn ids, `IoOk_run`, hypotheses `Inv` and `FreshRun`). -/
   io : List Nat := []
 
 /-- Observable effects of one event. -/
@@ -259,7 +260,9 @@ to `mark_for_recovery`: no `reset_for_reconnect`, no `mark_reconnect_success` (t
 `record_attempt` just incremented stays), no `reset_startup_grace`.  The REG1 / REG2 re-send that
 follows goes out all the same — on the OLD socket, which is still in the I/O map.
 (The sibling arm "link has no I/O entry" leaves the same connection record but sends nothing; the I/O
-map is kept in step with the connection list by `apply_connection_changes`, so it is not modelled.) -/
+map is kept in step with the connection list by `apply_connection_changes` — `Props/SysReload.lean`: `IoOk_run`,
+from a state whose key set is the links' conn ids, along every run whose reloads draw new conn ids, every link
+has its I/O half — so that arm is not modelled.) -/
 def hkLinksGo (classic : Bool) (now : Nat) :
     List (FLink F) → Nat → Reg.Reg → List Nat → List (FLink F) × Reg.Reg × List (Nat × Bytes)
   | [], _, reg, _ => ([], reg, [])
@@ -357,7 +360,8 @@ def handleHousekeeping (s : Sys F) (now : Nat) : Sys F × Out :=
 belongs to attempt `k`: `some id` = the attempt succeeded and drew the random conn id `id`
 (`rand::rng().next_u64()`), `none` (or no outcome) = it failed (resolve / socket / bind / connect error): the
 address is simply not added.  Every new link is `SrtlaConnection::new_registering(id, label, ip, now_ms())`,
-the constructor of start-up. -/
+the constructor of start-up.  Closed form (`Lemmas/ReloadExact.lean`: `createConnections_eq`): the addresses
+zipped with the outcomes, `filterMap` over the successes. -/
 def createConnections (now : Nat) : List Nat → List (Option Nat) → List (FLink F)
   | [], _ => []
   | a :: rest, outs =>
@@ -365,12 +369,16 @@ def createConnections (now : Nat) : List Nat → List (Option Nat) → List (FLi
     | some id => FLink.newUplink id a now :: createConnections now rest outs.tail
     | none => createConnections now rest outs.tail
 
-/-- `.filter(|ip| seen.insert(*ip))`: first occurrences, order kept. -/
+/-- `.filter(|ip| seen.insert(*ip))`: first occurrences, order kept (`Lemmas/ReloadExact.lean`: `mem_dedupSeen`,
+`dedupSeen_nodup`, `dedupSeen_sublist`, `dedupSeen_firstOcc`, and `dedupSeen_unique`: these four facts determine
+the function). -/
 def dedupSeen (seen : List Nat) : List Nat → List Nat
   | [] => []
   | x :: xs => if seen.contains x then dedupSeen seen xs else x :: dedupSeen (x :: seen) xs
 
-/-- `new_ips_needed`: the de-duplicated desired addresses no CURRENT link (before the removal) carries. -/
+/-- `new_ips_needed`: the de-duplicated desired addresses no CURRENT link (before the removal) carries
+(`Lemmas/ReloadExact.lean`: `mem_neededAddrs_iff`, `neededAddrs_nodup`, `neededAddrs_firstOcc`,
+`neededAddrs_unique`). -/
 def neededAddrs (ls : List (FLink F)) (newAddrs : List Nat) : List Nat :=
   (dedupSeen [] newAddrs).filter fun a => !(ls.map (·.addr)).contains a
 
